@@ -8,7 +8,7 @@ open UtreexoVerif Spec Spec.Forest
 
 /-! ### all rows -/
 
-theorem PPInv.outer {n : Nat} {Tg : List Pos} (hyp : PPHyp n Tg) :
+theorem PPInv.outer {n : Nat} {Tg : List Pos} (hyp : PPHyp0 n Tg) :
     ∀ (fuel ρ : Nat) (s : List Pos × List Pos × List Pos), PPInv n Tg ρ s →
       PPInv n Tg (ρ + fuel) (outerPos n fuel ρ s)
   | 0, _, _, h => h
@@ -91,12 +91,12 @@ theorem belowRoot_le_forestRows {n r o R : Nat} (hb : BelowRoot n r o R) : R ≤
 section
 variable {H : Type} (F : Forest H) {Tg : List Pos}
 
-theorem mem_paths (hyp : PPHyp F.numLeaves Tg) (p : Pos) :
+theorem mem_paths_of (hin : ∀ t ∈ Tg, ∃ R, BelowRoot F.numLeaves t.1 t.2 R) (p : Pos) :
     p ∈ sortDedup (Tg.flatMap (pathUp F.numLeaves (F.rows + 1))) ↔ InP F.numLeaves Tg p := by
   rw [mem_sortDedup, List.mem_flatMap]
   constructor
   · rintro ⟨t, ht, hp⟩
-    obtain ⟨R, hb⟩ := hyp.inForest t ht
+    obtain ⟨R, hb⟩ := hin t ht
     have hR := belowRoot_le_forestRows hb
     have := (mem_pathUp (R - t.1) t.1 t.2 (F.rows + 1) hb (by have := hb.1; omega)
       (by unfold Forest.rows; omega) p).1 hp
@@ -106,16 +106,25 @@ theorem mem_paths (hyp : PPHyp F.numLeaves Tg) (p : Pos) :
     exact ⟨t, ht, (mem_pathUp (R - t.1) t.1 t.2 (F.rows + 1) hb (by have := hb.1; omega)
       (by unfold Forest.rows; omega) p).2 ⟨ha, hp⟩⟩
 
-theorem mem_spec_proofPositions (hyp : PPHyp F.numLeaves Tg) (q : Pos) :
+theorem mem_paths (hyp : PPHyp F.numLeaves Tg) (p : Pos) :
+    p ∈ sortDedup (Tg.flatMap (pathUp F.numLeaves (F.rows + 1))) ↔ InP F.numLeaves Tg p :=
+  mem_paths_of F hyp.inForest p
+
+/-- the specification's proof positions, in terms of the paths — for ANY list of forest nodes -/
+theorem mem_spec_proofPositions_of (hin : ∀ t ∈ Tg, ∃ R, BelowRoot F.numLeaves t.1 t.2 R) (q : Pos) :
     q ∈ F.proofPositions Tg ↔ IsProof F.numLeaves Tg q := by
   unfold Forest.proofPositions
   simp only [mem_sortDedup, List.mem_filter, List.mem_map, Bool.not_eq_true', List.contains_eq_mem,
-    decide_eq_false_iff_not, mem_paths F hyp]
+    decide_eq_false_iff_not, mem_paths_of F hin]
   constructor
   · rintro ⟨⟨x, ⟨hx, hr⟩, rfl⟩, hq⟩
     exact ⟨x, hx, hr, rfl, hq⟩
   · rintro ⟨x, hx, hr, rfl, hq⟩
     exact ⟨⟨x, ⟨hx, hr⟩, rfl⟩, hq⟩
+
+theorem mem_spec_proofPositions (hyp : PPHyp F.numLeaves Tg) (q : Pos) :
+    q ∈ F.proofPositions Tg ↔ IsProof F.numLeaves Tg q :=
+  mem_spec_proofPositions_of F hyp.inForest q
 
 theorem anc_parent_iff {q t : Pos} : Anc q (parent t) ↔ Anc q t ∧ t.1 < q.1 := by
   constructor
@@ -153,7 +162,9 @@ theorem mem_pathUp_drop {n R : Nat} {t : Pos} {fuel : Nat} (hb : BelowRoot n t.1
     · rintro ⟨⟨h1, h2⟩, h3⟩; exact ⟨h1, h2, h3⟩
     · rintro ⟨h1, h2, h3⟩; exact ⟨⟨h1, h2⟩, h3⟩
 
-theorem isComp_iff (hyp : PPHyp F.numLeaves Tg) (q : Pos) :
+/-- computable = strict ancestor of a target, up to the root — for ANY target list (a strict
+ancestor `q` of target `t` is the parent of the node of `t`'s path one row below `q`) -/
+theorem isComp_iff_all (q : Pos) :
     IsComp F.numLeaves Tg q ↔
       ∃ t ∈ Tg, ∃ R, BelowRoot F.numLeaves t.1 t.2 R ∧ Anc q t ∧ t.1 < q.1 ∧ q.1 ≤ R := by
   constructor
@@ -167,29 +178,45 @@ theorem isComp_iff (hyp : PPHyp F.numLeaves Tg) (q : Pos) :
     have h1 := ha.1
     exact ⟨t, ht, R, hb, ha.parent, by show t.1 < x.1 + 1; omega, by show x.1 + 1 ≤ R; omega⟩
   · rintro ⟨t, ht, R, hb, ha, h1, h2⟩
-    have hin : InP F.numLeaves Tg q := ⟨t, ht, R, hb, ha, h2⟩
-    rcases hin.row_succ (ρ := q.1 - 1) (by omega) with h3 | ⟨x, _, hx2, hx3, hx4⟩
-    · have := hyp.anti q h3 t ht ha
-      rw [this] at h1; omega
-    · exact ⟨x, hx2, hx3, hx4⟩
+    obtain ⟨ρ, hρ⟩ : ∃ ρ, q.1 = ρ + 1 := ⟨q.1 - 1, by omega⟩
+    have hx : Anc (ρ, t.2 / 2 ^ (ρ - t.1)) t := ⟨by show t.1 ≤ ρ; omega, rfl⟩
+    have hbx := belowRoot_anc hb hx (by show ρ ≤ R; omega)
+    refine ⟨(ρ, t.2 / 2 ^ (ρ - t.1)), ⟨t, ht, R, hb, hx, by show ρ ≤ R; omega⟩, ?_, ?_⟩
+    · rw [belowRoot_isRootPos hbx]; simp; omega
+    · obtain ⟨a, b⟩ := q
+      simp only at hρ h1 ⊢
+      show (a, b) = (ρ + 1, t.2 / 2 ^ (ρ - t.1) / 2)
+      have h3 : b = t.2 / 2 ^ (a - t.1) := ha.2
+      subst hρ
+      rw [h3, Nat.div_div_eq_div_mul, ← Nat.pow_succ, show (ρ - t.1).succ = ρ + 1 - t.1 by omega]
 
-theorem mem_spec_computable (hyp : PPHyp F.numLeaves Tg) (q : Pos) :
+theorem isComp_iff (_hyp : PPHyp F.numLeaves Tg) (q : Pos) :
+    IsComp F.numLeaves Tg q ↔
+      ∃ t ∈ Tg, ∃ R, BelowRoot F.numLeaves t.1 t.2 R ∧ Anc q t ∧ t.1 < q.1 ∧ q.1 ≤ R :=
+  isComp_iff_all F q
+
+theorem mem_spec_computable_of (hin : ∀ t ∈ Tg, ∃ R, BelowRoot F.numLeaves t.1 t.2 R) (q : Pos) :
     q ∈ F.computable Tg ↔ IsComp F.numLeaves Tg q := by
   unfold Forest.computable
   simp only [mem_sortDedup, List.mem_flatMap]
-  rw [isComp_iff F hyp]
+  rw [isComp_iff_all F]
   constructor
   · rintro ⟨t, ht, hq⟩
-    obtain ⟨R, hb⟩ := hyp.inForest t ht
+    obtain ⟨R, hb⟩ := hin t ht
     have hR := belowRoot_le_forestRows hb
     exact ⟨t, ht, R, hb, (mem_pathUp_drop hb (by unfold Forest.rows; omega) q).1 hq⟩
   · rintro ⟨t, ht, R, hb, h⟩
     have hR := belowRoot_le_forestRows hb
     exact ⟨t, ht, (mem_pathUp_drop hb (by unfold Forest.rows; omega) q).2 h⟩
 
+theorem mem_spec_computable (hyp : PPHyp F.numLeaves Tg) (q : Pos) :
+    q ∈ F.computable Tg ↔ IsComp F.numLeaves Tg q :=
+  mem_spec_computable_of F hyp.inForest q
+
 /-- **`refPP` computes the specification's canonical lists** when the targets are nodes of
-the forest, strictly sorted, and none is an ancestor of another; any `H ≥ TreeRows`. -/
-theorem refPP_eq_spec (hyp : PPHyp F.numLeaves Tg) {H : Nat} (hH : F.rows ≤ H) :
+the forest and strictly sorted — nested or not; any `H ≥ TreeRows`.  Literal equality of
+lists: both sides are ordered by row, then position, without duplicates. -/
+theorem refPP_eq_spec_all (hyp : PPHyp0 F.numLeaves Tg) {H : Nat} (hH : F.rows ≤ H) :
     refPP F.numLeaves H Tg = (F.proofPositions Tg, F.computable Tg) := by
   have inv := PPInv.outer hyp (H + 1) 0 (Tg, [], []) (PPInv.init hyp)
   rw [Nat.zero_add] at inv
@@ -198,7 +225,7 @@ theorem refPP_eq_spec (hyp : PPHyp F.numLeaves Tg) {H : Nat} (hH : F.rows ≤ H)
   · apply eq_of_ssorted inv.pf_sorted
     · unfold Forest.proofPositions; exact sortDedup_ssorted _
     · intro q
-      rw [inv.pf_mem, mem_spec_proofPositions F hyp]
+      rw [inv.pf_mem, mem_spec_proofPositions_of F hyp.inForest]
       constructor
       · exact fun h => h.2
       · intro h
@@ -213,15 +240,20 @@ theorem refPP_eq_spec (hyp : PPHyp F.numLeaves Tg) {H : Nat} (hH : F.rows ≤ H)
   · apply eq_of_ssorted inv.nx_sorted
     · unfold Forest.computable; exact sortDedup_ssorted _
     · intro q
-      rw [inv.nx_mem, mem_spec_computable F hyp]
+      rw [inv.nx_mem, mem_spec_computable_of F hyp.inForest]
       constructor
       · exact fun h => h.2
       · intro h
         refine ⟨?_, h⟩
-        obtain ⟨t, _, R, hb, _, _, h2⟩ := (isComp_iff F hyp q).1 h
+        obtain ⟨t, _, R, hb, _, _, h2⟩ := (isComp_iff_all F q).1 h
         have := belowRoot_le_forestRows hb
         unfold Forest.rows at hH
         omega
+
+/-- the un-nested special case (hypotheses `PPHyp`) -/
+theorem refPP_eq_spec (hyp : PPHyp F.numLeaves Tg) {H : Nat} (hH : F.rows ≤ H) :
+    refPP F.numLeaves H Tg = (F.proofPositions Tg, F.computable Tg) :=
+  refPP_eq_spec_all F hyp.toHyp0 hH
 
 end
 
